@@ -47,6 +47,14 @@ def replace_cases(b):
                     else:
                         out.append(_case(cid, 'REPLACE', base, unw, ['qstrreplace'],
                                          'qstrreplace("%s"): source %d, token %d, word %d bytes, all bytes symbolic; %s replaced, nothing else' % (mode, n, t, w, what)))
+    # string mode with a 3-byte search word on sources long enough for a failed partial match to overlap a real occurrence
+    # (e.g. "aaab" / "aab"): present in both tiers
+    for rm, mode in ((2, 'sn'), (3, 'sr')):
+        for n in (4, 5):
+            if b['t'] >= 3 and n <= b['n']:
+                continue
+            out.append(_case('replace.%s.n%d.t3.w1' % (mode, n), 'REPLACE', {'VF_RMODE': rm, 'VF_N': n, 'VF_T': 3, 'VF_W': 1}, n + 3 + 5, ['qstrreplace'],
+                             'qstrreplace("%s"): source %d, search word 3 bytes, replacement 1 byte, all bytes symbolic' % (mode, n)))
     # refused modes
     for ml in (0, 1, 3):
         out.append(_case('replace.badmode.len%d' % ml, 'BADMODE', {'VF_ML': ml, 'VF_N': 2, 'VF_T': 1, 'VF_W': 1}, 8, ['qstrreplace'],
